@@ -81,48 +81,55 @@ example : pathSimplify (pathSimplify (ofString "/a//b/./../c/")) = ofString "/a/
 theorem c02_uri_path_canonical (o : Opts) (t : Bytes) (u : Target)
     (h : parseTarget o false t = .ok u) : CanonicalAbs u.path := by
   unfold parseTarget at h
-  simp only [Bool.false_eq_true, if_false] at h
+  simp only [Bool.false_eq_true, ↓reduceIte] at h
   split at h
   · simp at h
-  · simp only at h
-    split at h
-    · rename_i hhead
-      simp only [Except.ok.injEq] at h
-      subst h
-      exact pathSimplify_head_canonical _ hhead
-    · simp at h
+  · split at h <;>
+    · split at h
+      · rename_i hhead
+        simp only [Except.ok.injEq] at h
+        subst h
+        exact pathSimplify_head_canonical _ hhead
+      · simp at h
 
-example : (parseTarget ⟨9567⟩ false (ofString "/a/%2e%2e/%2E./etc/passwd?x")).map (·.path)
-    = .ok (ofString "/etc/passwd") := by decide
+example : (match parseTarget ⟨9567⟩ false (ofString "/a/%2e%2e/%2E./etc/passwd?x") with
+    | .ok u => u.path | .error _ => []) = ofString "/etc/passwd" := by decide +kernel
 
 /-- buffer_urldecode_path(): a byte of the result is a byte of the input or a decoded byte that is
     not a control character (control bytes are mapped to '_') -/
 theorem c02_decode_no_ctl : ∀ (s : Bytes), ∀ b ∈ urldecodePath s, b ∈ s ∨ (32 ≤ b ∧ b ≠ 127) := by
+  have hd : ∀ hv lv : UInt8, 32 ≤ decodeByte hv lv ∧ decodeByte hv lv ≠ 127 := by
+    intro hv lv
+    unfold decodeByte
+    simp only
+    split
+    · rename_i hc
+      simp only [Bool.and_eq_true, decide_eq_true_eq] at hc
+      exact hc
+    · decide
+  have hcons : ∀ (x : UInt8) (t s : Bytes) (b : UInt8),
+      (∀ b ∈ urldecodePath t, b ∈ t ∨ (32 ≤ b ∧ b ≠ 127)) → (∀ y ∈ t, y ∈ s) → x ∈ s →
+      b ∈ x :: urldecodePath t → b ∈ s ∨ (32 ≤ b ∧ b ≠ 127) := by
+    intro x t s b ih hsub hx hb
+    simp only [List.mem_cons] at hb
+    rcases hb with e | e
+    · left; exact e ▸ hx
+    · rcases ih b e with h' | h'
+      · left; exact hsub _ h'
+      · right; exact h'
   intro s
   induction s using urldecodePath.induct with
   | case1 => simp [urldecodePath]
-  | case2 b => simp [urldecodePath]
-  | case3 a b ih =>
+  | case2 b => intro x hx; left; simpa [urldecodePath] using hx
+  | case3 a b ih => intro x hx; left; simpa [urldecodePath] using hx
+  | case4 h l rest hv lv hl hh ih =>
     intro x hx
-    simp only [urldecodePath, List.mem_cons] at hx
+    have : urldecodePath (pct :: h :: l :: rest) = decodeByte hv lv :: urldecodePath rest := by
+      rw [urldecodePath]; simp only [↓reduceIte, hh, hl]
+    rw [this] at hx
+    simp only [List.mem_cons] at hx
     rcases hx with e | e
-    · left; simp [e]
-    · rcases ih x e with h | h
-      · left; simp only [List.mem_cons] at h ⊢; right; exact h
-      · right; exact h
-  | case4 h l rest hv lv hh hl ih =>
-    intro x hx
-    simp only [urldecodePath, hh, hl, if_true, List.mem_cons] at hx
-    rcases hx with e | e
-    · subst e
-      unfold decodeByte
-      simp only
-      split
-      · rename_i hc
-        right
-        simp only [Bool.and_eq_true, decide_eq_true_eq] at hc
-        exact ⟨hc.1, hc.2⟩
-      · right; decide
+    · right; exact e ▸ hd hv lv
     · rcases ih x e with h' | h'
       · left; simp [h']
       · right; exact h'
@@ -130,25 +137,15 @@ theorem c02_decode_no_ctl : ∀ (s : Bytes), ∀ b ∈ urldecodePath s, b ∈ s 
     intro x hx
     have : urldecodePath (pct :: h :: l :: rest) = pct :: urldecodePath (h :: l :: rest) := by
       rw [urldecodePath]
-      simp only [if_true]
-      split
-      · rename_i hv lv hh hl; exact absurd ⟨hh, hl⟩ (by simpa using hn hv lv)
-      · rfl
+      simp only [↓reduceIte]
     rw [this] at hx
-    simp only [List.mem_cons] at hx
-    rcases hx with e | e
-    · left; simp [e]
-    · rcases ih x e with h' | h'
-      · left; simp only [List.mem_cons] at h' ⊢; right; exact h'
-      · right; exact h'
+    exact hcons pct (h :: l :: rest) _ x ih (fun y hy => by simp [hy]) (by simp) hx
   | case6 b h l rest hb ih =>
     intro x hx
-    simp only [urldecodePath, hb, if_false, List.mem_cons] at hx
-    rcases hx with e | e
-    · left; simp [e]
-    · rcases ih x e with h' | h'
-      · left; simp only [List.mem_cons] at h' ⊢; right; exact h'
-      · right; exact h'
+    have : urldecodePath (b :: h :: l :: rest) = b :: urldecodePath (h :: l :: rest) := by
+      rw [urldecodePath]; simp only [hb, ↓reduceIte]
+    rw [this] at hx
+    exact hcons b (h :: l :: rest) _ x ih (fun y hy => by simp [hy]) (by simp) hx
 
 example : urldecodePath (ofString "/a%00%1f%7f%2e") = ofString "/a___." := by decide
 
@@ -174,8 +171,8 @@ theorem c02_host_single_segment (h h' : Bytes) (hh : hostPolicyPlain true h = so
         simp [List.takeWhile_cons, colon]
     refine ⟨?_, ?_, ?_, fun hm => h1 (hsub _ hm)⟩
     · intro e; simp [e] at hhead
-    · intro e; rw [e] at hhead; simp [segDot] at hhead
-    · intro e; rw [e] at hhead; simp [segDotDot] at hhead
+    · intro e; rw [e] at hhead; simp [segDot, dot] at hhead
+    · intro e; rw [e] at hhead; simp [segDotDot, dot] at hhead
   · obtain ⟨h1, h2, h3⟩ := checkHostnameV4_clean hh
     exact ⟨h1, h2, fun _ => h3⟩
 
@@ -219,10 +216,13 @@ theorem c02_vhost_docroot_single_segment (strict : Bool) (raw a sroot : Bytes) (
     exact ⟨hc.2.2.2, hc.2.1, hc.2.2.1, by cases droot <;> rfl⟩
   | false =>
     unfold svhostGuard at hg
-    simp only [Bool.false_or, Bool.and_eq_true, Bool.not_eq_true', bne_iff_ne, ne_eq,
-               decide_eq_true_eq, decide_not] at hg
-    obtain ⟨_, hhead, hns⟩ := hg
-    have hns' : slash ∉ a := by simpa using hns
+    rw [Bool.and_eq_true] at hg
+    obtain ⟨_, hg2⟩ := hg
+    simp only [Bool.false_or] at hg2
+    rw [Bool.and_eq_true] at hg2
+    obtain ⟨h3, h4⟩ := hg2
+    have hhead : a.head? ≠ some dot := of_decide_eq_true h3
+    have hns' : slash ∉ a := by simpa using h4
     have hsub := hostPart_subset a
     have hh : (hostPart a).head? ≠ some dot := by
       rcases hostPart_head a with e | e
@@ -235,10 +235,6 @@ theorem c02_vhost_docroot_single_segment (strict : Bool) (raw a sroot : Bytes) (
 example : svhostGuard false (ofString "..") = false ∧ svhostGuard false (ofString "a/../..") = false ∧
     svhostPath (ofString "/vh/") (some (ofString "www.example.org:81")) (some (ofString "/htdocs/"))
       = ofString "/vh/www.example.org/htdocs/" := by decide
-
-/-- number of '/' the literal parts of an evhost pattern contain -/
-def litSlashes (pieces : List EvPiece) : Nat :=
-  (pieces.map fun p => match p with | .lit s => s.count slash | _ => 0).sum
 
 /-- mod_evhost: nothing taken from the host adds a path separator - the doc root has the '/' of the
     pattern text (plus the trailing one), for every pattern and every host without '/' (strict mode:
@@ -387,7 +383,9 @@ theorem c02_xsendfile_contained (lc : Bool) (xdoc : List Bytes) (raw p : Bytes)
     (h : xsendfilePath lc xdoc raw = .send p) :
     CanonicalAbs p ∧ ∃ x ∈ xdoc, isPrefixOf lc x p = true ∧ (lc = false → ∃ rest, p = x ++ rest) := by
   unfold xsendfilePath at h
-  simp only at h
+  dsimp only at h
+  generalize hq : (if lc then lowerBytes (pathSimplify (urldecodePath raw))
+                   else pathSimplify (urldecodePath raw)) = q at h
   split at h
   · simp at h
   · split at h
@@ -403,10 +401,11 @@ theorem c02_xsendfile_contained (lc : Bool) (xdoc : List Bytes) (raw p : Bytes)
         · exact absurd e hx
         · have hhead := isPrefixOf_head hpre (hwf x hxm)
           refine ⟨?_, x, hxm, hpre, ?_⟩
-          · cases lc
-            · simp only [Bool.false_eq_true, if_false] at hhead ⊢
+          · subst hq
+            cases lc
+            · simp only [Bool.false_eq_true, ↓reduceIte] at hhead ⊢
               exact pathSimplify_head_canonical _ hhead
-            · simp only [if_true] at hhead ⊢
+            · simp only [↓reduceIte] at hhead ⊢
               have := pathSimplify_head_canonical _ (lowerBytes_head_slash hhead)
               simpa [lowerBytes] using canonical_map_toLower this
           · intro hl; subst hl; exact isPrefixOf_exact hpre
@@ -417,7 +416,10 @@ theorem c02_xsendfile2_contained (lc : Bool) (xdoc : List Bytes) (value p : Byte
     (h : xsendfile2First lc xdoc value = .send p) :
     CanonicalAbs p ∧ ∃ x ∈ xdoc, isPrefixOf lc x p = true := by
   unfold xsendfile2First at h
-  simp only at h
+  dsimp only at h
+  generalize hq : (if lc then lowerBytes (pathSimplify (urldecodePath
+                      ((value.dropWhile (· = sp)).takeWhile (· ≠ sp))))
+                   else pathSimplify (urldecodePath ((value.dropWhile (· = sp)).takeWhile (· ≠ sp)))) = q at h
   split at h
   · simp at h
   · split at h
@@ -437,17 +439,18 @@ theorem c02_xsendfile2_contained (lc : Bool) (xdoc : List Bytes) (value p : Byte
             · exact absurd e hx
             · have hhead := isPrefixOf_head hpre (hwf x hxm)
               refine ⟨?_, x, hxm, hpre⟩
+              subst hq
               cases lc
-              · simp only [Bool.false_eq_true, if_false] at hhead ⊢
+              · simp only [Bool.false_eq_true, ↓reduceIte] at hhead ⊢
                 exact pathSimplify_head_canonical _ hhead
-              · simp only [if_true] at hhead ⊢
+              · simp only [↓reduceIte] at hhead ⊢
                 have := pathSimplify_head_canonical _ (lowerBytes_head_slash hhead)
                 simpa [lowerBytes] using canonical_map_toLower this
 
 example : xsendfilePath false [ofString "/srv/files/"] (ofString "/srv/files/%2e%2e/%2e%2e/etc/passwd")
-    = .status 403 := by decide
+    = .status 403 := by decide +kernel
 example : xsendfilePath false [ofString "/srv/files/"] (ofString "/srv/x/../files/a%2fb")
-    = .send (ofString "/srv/files/a/b") := by decide
+    = .send (ofString "/srv/files/a/b") := by decide +kernel
 
 /-- mod_webdav_copymove_b(): an accepted Destination yields a canonical absolute destination url-path,
     and - when the request's physical path is doc_root + rel_path (no alias in play) - the destination
@@ -495,7 +498,7 @@ theorem c02_dav_destination_canonical (lc : Bool) (scheme authority docroot srcR
 
 example : davDestination false (ofString "http") (ofString "h:1") (ofString "/srv/www/") (ofString "/dav/a.txt")
     (ofString "/srv/www/dav/a.txt") (ofString "http://h:1/dav/%2e%2e/%2e%2e/etc/x")
-    = .ok (ofString "/etc/x") (ofString "/srv/www/etc/x") := by decide
+    = .ok (ofString "/etc/x") (ofString "/srv/www/etc/x") := by decide +kernel
 
 /-- stat_cache_path_contains_symlink(): result 0 (the only result with which a request is served when
     server.follow-symlink is disabled) means that the path and every prefix of it ending before a '/'
@@ -516,8 +519,9 @@ theorem c02_symlink_walk (fs : Bytes → FsKind) (name : Bytes) (hlen : 1 < name
         · simp at h
         · exact symLoop_zero fs _ name rfl h
 
-example : symWalk (fun p => if p = ofString "/a/b" then .link else .dir) (ofString "/a/b/c") = 1 := by decide
+example : symWalk (fun p => if p = ofString "/a/b" then .link else .dir) (ofString "/a/b/c") = 1 := by
+  decide +kernel
 example : symlinkServed false (fun p => if p = ofString "/a/b/c" then .file else .dir) (ofString "/a/b/c") = true := by
-  decide
+  decide +kernel
 
 end LtVerif.C02
